@@ -79,12 +79,19 @@ def qmul (N : NumOps F) (l r : Quant F) : QV F :=
 def qdiv (N : NumOps F) (l r : Quant F) : QV F :=
   some (Quant.mk' N (N.div l.val r.val) (N.div l.k r.k) (l.dims.sub r.dims))
 
+/-- `CustomOperatorPow.operate_binary`: `np.power(left, right.value())` (integral exponents) -/
+def qpow (N : NumOps F) (l r : Quant F) : QV F :=
+  match N.toInt r.val with
+  | some n => some (Quant.mk' N (N.pow l.val r.val) (N.pow l.k r.val) (l.dims.scale n))
+  | none => none
+
 def lift2 (f : Quant F → Quant F → QV F) : QV F → QV F → QV F
   | some a, some b => f a b
   | _, _ => none
 
 /-- `operate_binary` by operator key -/
 def numBin (N : NumOps F) : String → Option (QV F → QV F → QV F)
+  | "pow" => some (lift2 (qpow N))
   | "mul" => some (lift2 (qmul N))
   | "truediv" => some (lift2 (qdiv N))
   | "add" => some (lift2 (qaddsub N false))
@@ -124,12 +131,18 @@ def numSem (N : NumOps F) : Sem (QV F) where
 /-- `result.value(in_units)` : magnitude in the requested unit (factor `k`, dimensions `dims`). -/
 def valueIn (N : NumOps F) (q : Quant F) (k : F) (dims : Dims) : Option F := convTo N q k dims
 
-/-- The numerical grammar: `* /` bind at level 2 (level 1 is `**`, not part of the documented
-    grammar), `+ -` at level 3. -/
+/-- prefix sign: `CustomOperatorSub.operate_unary` negates, `CustomOperatorAdd.operate_unary` keeps -/
+def numPreSem (N : NumOps F) (u : String) (q : QV F) : QV F :=
+  if u = "sub" then (numSem N).neg q else q
+
+/-- The numerical grammar: a prefix sign binds tightest (level 1, the sign-folding step), then
+    `**` (2), `* /` (3), `+ -` (4) — the order of the step table. -/
 def numGrammar : Grammar where
-  lvl := fun o => if o = "mul" ∨ o = "truediv" then 2 else if o = "add" ∨ o = "sub" then 3 else 0
-  okBin := fun o => o = "mul" || o = "truediv" || o = "add" || o = "sub"
-  okPre := fun _ => false
+  lvl := fun o => if o = "pow" then 2 else if o = "mul" ∨ o = "truediv" then 3
+    else if o = "add" ∨ o = "sub" then 4 else 0
+  lvlPre := fun _ => 1
+  okBin := fun o => o = "pow" || o = "mul" || o = "truediv" || o = "add" || o = "sub"
+  okPre := fun u => u = "add" || u = "sub"
   okFn1 := fun f => f = "exp" || f = "log" || f = "log10" || f = "sqrt" || f = "sin" || f = "cos" || f = "tan"
   okFn2 := fun f => f = "logb" || f = "powb"
 
@@ -149,6 +162,12 @@ def siBin (N : NumOps F) (o : String) (a b : Option (SQ F)) : Option (SQ F) :=
     else if o = "sub" then (if a.dims = b.dims then some ⟨N.sub a.si b.si, a.dims⟩ else none)
     else if o = "mul" then some ⟨N.mul a.si b.si, a.dims.add b.dims⟩
     else if o = "truediv" then some ⟨N.div a.si b.si, a.dims.sub b.dims⟩
+    else if o = "pow" then
+      (if b.dims.nodim then
+        match N.toInt b.si with
+        | some n => some ⟨N.pow a.si b.si, a.dims.scale n⟩
+        | none => none
+      else none)
     else none
   | _, _ => none
 
@@ -179,7 +198,8 @@ def evalSI (N : NumOps F) (av : A → Option (SQ F)) : E A → Option (SQ F)
   | .par e => siFn N "par" [evalSI N av e]
   | .fn1 f a => siFn N f [evalSI N av a]
   | .fn2 f a b => siFn N f [evalSI N av a, evalSI N av b]
-  | .pre _ _ => none
+  | .pre u e => if u = "sub" then (evalSI N av e).map fun a => ⟨N.neg a.si, a.dims⟩
+      else if u = "add" then evalSI N av e else none
   | .bin o l r => siBin N o (evalSI N av l) (evalSI N av r)
 
 /-- the result expressed in the requested unit -/
